@@ -282,7 +282,10 @@ def gen_file(r, knobs=None):
                 lines.append("r8pal %d" % r.randrange(1, 10 ** 6))
             for _ in range(r.choice([1, 2, 2, 3])):
                 lines.append("r8 %d %d %d %d" % (r.randrange(1, 13), r.randrange(1, 13), r.randrange(1, 10 ** 6), r.choice([0, 0, 1])))
-            if r.random() < 0.4:
+            # DF24addimage into a file that already holds images written through the GR interface can reuse their
+            # reference numbers and clobber them (a defect of the old interface, outside this property: the INPUT is then
+            # already inconsistent), so 24-bit old-style images go into files without new-style images only
+            if r.random() < 0.4 and ngr == 0:
                 lines.append("r24 %d %d %d %d" % (r.randrange(1, 9), r.randrange(1, 9), r.randrange(1, 10 ** 6), r.choice([0, 1, 2])))
     if r.random() < 0.25:
         for _ in range(r.choice([1, 1, 2, 3, 4])):
